@@ -218,6 +218,10 @@ def run_driver(cases, budget=None):
         p = subprocess.run([DRIVER], input=inp, stdout=subprocess.PIPE, stderr=subprocess.PIPE, timeout=budget)
     except subprocess.TimeoutExpired:
         if len(cases) == 1:
+            # one case alone: the time the model needs depends on the input and on the load of the
+            # machine, never on the code under check - give it one long second chance
+            if budget < 1200:
+                return run_driver(cases, 1200)
             return ["driver-timeout"]
         h = len(cases) // 2
         return run_driver(cases[:h], max(60, budget // 2)) + run_driver(cases[h:], max(60, budget // 2))
@@ -458,6 +462,7 @@ def main():
     dist = {}
     known_hits = {}
     stream_stats = {}
+    driver_timeouts = {}
     if os.path.exists(HARNESS_BIN) and os.path.exists(DRIVER):
         streams = cfg["streams"]
         if args.replay:
@@ -517,9 +522,12 @@ def main():
                     samples.append({"stream": name, "case": c[:600], "rust": r[:200], "model": m[:300]})
                 if r.startswith("skip") or mo.startswith("skip"):
                     continue
-                if r == "timeout" and mo == "driver-timeout":
-                    # code and model both need longer than the case time limit: the work is what the
-                    # configured limits allow (the model's is proved bounded by them), not a hang
+                if mo == "driver-timeout":
+                    # the model did not answer within twenty minutes on this one input (its running
+                    # time is a function of the input alone): the case is not compared, and counted.
+                    # (When the code times out as well, both need longer than the case time limit:
+                    # the work is what the configured limits allow, not a hang.)
+                    driver_timeouts[name] = driver_timeouts.get(name, 0) + 1
                     continue
                 problem = None
                 if mo.startswith("bad-case") or r.startswith("bad-case") or mo == "driver-died":
@@ -540,7 +548,7 @@ def main():
                 if len(violations) < 20:
                     violations.append({"stream": name, "kind": problem[0], "detail": problem[1], "case": c,
                                        "rust": r, "model": m})
-            stream_stats[name] = {"cases": len(cases), "problems": nd}
+            stream_stats[name] = {"cases": len(cases), "problems": nd, "model_timeouts_not_compared": driver_timeouts.get(name, 0)}
 
     # ---- search for a failing input: a model/code disagreement is not by itself a violation of
     # the property, so the property's oracle (Lean, specification side) is applied to the
